@@ -27,9 +27,12 @@ def main(tier, args):
     pipe = build_pipeline()
     res = vf.Result(); log = open(vf.BUILD + "/C12/log.txt", "w")
     quick = tier == "quick"
-    dl = int(os.environ.get("C12_DEADLINE_S", 55 if quick else 1000))      # relative deadline of every process (override: diagnosis on a loaded machine)
+    # relative deadline of every process. The quick tier needs ~440 CPU-seconds (about 40 s on 16 idle cores); on a machine that is shared with other runs the
+    # deadline is stretched with the load (at most 4x), so that the shallow-but-late cases (4-request pipelines, the last mutations) are still reached.
+    stretch = min(4.0, max(1.0, os.getloadavg()[0] / (os.cpu_count() or 16)))
+    dl = int(os.environ.get("C12_DEADLINE_S", (55 * stretch) if quick else 1000))
     jobs = []
-    # all processes start together (run_procs jobs=28), so the one (relative) deadline bounds the wall time; the fork-bound pipeline lanes come first.
+    # all processes start together (run_procs jobs=30), so the one (relative) deadline bounds the wall time; the fork-bound pipeline lanes come first.
     # (2) pipeline half, engine H, fork per evaluation.  <=requests per configuration: quick 3/3/3, thorough 4/3/4
     depth = 6 if quick else 8
     mr = {"unix-epoll": 3 if quick else 4, "unix-select": 3, "tcp-epoll": 3 if quick else 4}
@@ -42,10 +45,14 @@ def main(tier, args):
     for tr, eng, lane in (("unix", "epoll", "hdr"), ("unix", "epoll", "big"), ("unix", "epoll", "multi"), ("tcp", "epoll", "multi"), ("unix", "epoll", "mw"),
                           ("unix", "epoll", "resp"), ("unix", "epoll", "life"), ("tcp", "epoll", "life")):
         jobs.append(("pipe:%s-%s-%s" % (tr, eng, lane), [pipe, tr, eng, ldepth, "3", lane]))
+    # the big and resp lanes once more under a digit-grouping global C++ locale (what std::locale::global(std::locale("en_US.UTF-8")) does in an application):
+    # Content-Length must still be a plain decimal number (the library used 'oss << size_t' until the repair in /repo)
+    for lane in ("big", "resp"):
+        jobs.append(("pipe:unix-epoll-%s-grouping-locale" % lane, [pipe, "unix", "epoll", "4" if quick else "5", "3", lane], {"C12_GROUPING_LOCALE": "1"}))
     for tr, eng in (("unix", "epoll"), ("tcp", "epoll")):      # hostile Content-Length values against the real server (small: the lane reaches its fixpoint at depth 4)
         jobs.append(("pipe:%s-%s-hcl" % (tr, eng), [pipe, tr, eng, "4" if quick else "5", "3", "hcl"]))
     # (1) parser half, engine I
-    nsplit, nbytes, nmut = 8, 3, 2
+    nsplit, nbytes, nmut = 8, 3, 4
     for s in range(nsplit):
         jobs.append(("split:%d" % s, [parser, "split", str(s), str(nsplit), "0" if quick else "1"]))
     for s in range(nbytes):
@@ -56,7 +63,7 @@ def main(tier, args):
         jobs = [j for j in jobs if j[0] == args.only or j[0].split(":")[0] == args.only]
     os.makedirs(vf.BUILD + "/C12/sock", exist_ok=True)
     env = {"VERIF_DEADLINE_S": str(dl), "VERIF_WORKERS": "6", "C12_SOCK_DIR": vf.BUILD + "/C12/sock"}
-    vf.run_procs(res, jobs, env=env, log=log, jobs=28)
+    vf.run_procs(res, jobs, env=env, log=log, jobs=30)
     for f in glob.glob(vf.BUILD + "/C12/sock/c12-*.sock"):      # left behind by children that died (crash = reported violation)
         try: os.unlink(f)
         except OSError: pass
@@ -106,7 +113,7 @@ def main(tier, args):
     rule = rule.replace("{NMUT}", pc.get("nmut", "?")).replace("{NEXTRAS}", pc.get("nextras", "?")).replace("{NHCL}", lc.get("nhcl", "?"))
     vf.finish(PID, tier, res, t0, rule=rule,
               assumptions=["every request of a segmentation-independence stream declares Content-Length; canonical header-name spelling (DESIGN 1.7); lower-case Connection tokens (this check's own reading: capitalised Keep-Alive/Close are not exercised)",
-                           "the process runs in the classic \"C\" locale (a digit-grouping global C++ locale is behind the default-off switch C12_GROUPING_LOCALE, see the harness)",
+                           "the process runs in the classic \"C\" locale except for two lanes that run under a digit-grouping global C++ locale (C12_GROUPING_LOCALE=1, see the harness)",
                            "the client writes a segment, then the loop runs one pass; segments written without a pass in between coalesce into one receive",
                            "handlers complete (and deferred next() calls are made) on the loop thread: from a runNext callback of the pass in which they are due",
                            "an idle loop pass is ended by an interposed epoll_wait/select (zero timeout) instead of blocking",
